@@ -179,6 +179,10 @@ def build_inputs(tier):
     cases.append(("call", ("x = ", "match", ["a b"], "\n")))
     for rest in ["{a} b", "(a (b) c) d", "f'{x}' y", "`a.*` z", "[x [y]]"]:
         cases.append(("proc", (f"$(echo! {rest})", "echo", rest, "subproc_captured", "", "\n")))
+    # line breaks, comments and non-ASCII blanks inside a subprocess macro have no token the macro rule collects
+    for rest in ["a\n b", "a\xa0b", "a  # c\n b", "a\u2003b  c", "x \\\n y"]:
+        cases.append(("proc", (f"$(echo! {rest})", "echo", rest, "subproc_captured", "", "\n")))
+        cases.append(("proc", (f"![echo! {rest}]", "echo", rest, "subproc_captured_hiddenobject", "r = ", "\n")))
     for _ in range(500 * N):
         s, ctx, body = xonshgen.gen_with_macro(r)
         cases.append(("with", (s, ctx, body, r.choice(AFTER), r.choice(BEFORE))))
@@ -230,6 +234,12 @@ def classify(kind, o):
         kept = [ln for ln in (o.get("want") or "").splitlines(keepends=True) if ln.strip() != "\\"]
         if textwrap.dedent("".join(kept)) == o.get("got"):
             return "KF-C07-continuation-only-line"
+    if kind == "proc" and o.get("kind") == "rest-not-verbatim" and len(o.get("want") or []) == 2 and len(o.get("got") or []) == 2:
+        w, g = o["want"][1], o["got"][1]
+        # exactly the text without its line breaks (and the continuation backslash before one), comments and non-ASCII blanks
+        stripped = re.sub(r"#[^\n]*\n|\\\r?\n|\r?\n|[^\x00-\x7f]", lambda m: "" if (m.group(0).isspace() or m.group(0)[0] in "#\\") else m.group(0), w)
+        if w != g and stripped == g and o["want"][0] == o["got"][0]:
+            return "KF-C07-proc-macro-dropped-blanks"
     if kind == "proc" and o.get("kind") in ("rejected", "rest-not-verbatim", "macro-count") and o.get("proc_rest_class"):
         return "KF-C07-proc-macro-token-kinds"
     return None
